@@ -119,6 +119,10 @@ func (runInfo *runInfoStruct) runSingleStmt() {
 			return
 		}
 		runInfo.err = newStringError(stmt, fmt.Sprint(runInfo.rv.Interface()))
+		if runInfo.err == nil {
+			// throwing an empty message is still a throw
+			runInfo.err = &Error{Message: "", Pos: stmt.Position()}
+		}
 
 	// ModuleStmt
 	case *ast.ModuleStmt:
